@@ -266,6 +266,7 @@ def replay_model(obs):
                 "cache_cmds": [m.command for m in c],
                 "since_implicit": since_implicit,
                 "resumable": cache is not None,
+                "rewindable": rewindable,
             }
         )
         future = c + future
